@@ -6,6 +6,7 @@ CONSTANTS
   Counts = {1, 3, 11, 32}
   Bes = {0, 1}
   NChains = 0
+  Blind = 0
   NSurg = 0
 INIT Init
 NEXT Next
